@@ -107,6 +107,9 @@ class FilterSeq(SpecSeq):
                          patterns=[z3.Contains(F, z3.Unit(y))])
 
     def positions_lemma(self):
+        self.want_positions_lemma = True
+        return self._positions_lemma()
+    def _positions_lemma(self):
         """the item at every position of the filtered list is a kept item of the source, as a hypothesis (proved by induction with
         `positions-are-kept-items/base|step`; the property module must list this sequence in SPECSEQS)"""
         ps = [z3.Const('p%d!fp' % i, s_) for i, s_ in enumerate(self.param_sorts)]
@@ -122,7 +125,7 @@ class FilterSeq(SpecSeq):
         F0 = lambda t: self.f(*(ps0 + [t]))
         def pos(t, k_): return z3.Implies(z3.And(0 <= k_, k_ < z3.Length(F0(t))), z3.Exists([j0], z3.And(0 <= j0, j0 < t, self.cond(*(ps0 + [j0])), self.item(*(ps0 + [j0])) == F0(t)[k_])))
         kq = z3.Int('k!pq')
-        out0 += [('speclib/%s/positions-are-kept-items/base' % self.name, [F0(z3.IntVal(0)) == self.empty], pos(z3.IntVal(0), k0)),
+        if getattr(self, 'want_positions_lemma', False): out0 += [('speclib/%s/positions-are-kept-items/base' % self.name, [F0(z3.IntVal(0)) == self.empty], pos(z3.IntVal(0), k0)),
                  # the step by cases on whether element n is kept (the unfolding F(n+1) == F(n) ++ (if kept [item n] else []) with the condition decided)
                  ('speclib/%s/positions-are-kept-items/step-kept' % self.name,
                   [n0 >= 0, z3.ForAll([kq], pos(n0, kq)), self.cond(*(ps0 + [n0])), F0(n0 + 1) == z3.Concat(F0(n0), z3.Unit(self.item(*(ps0 + [n0])))),
